@@ -758,6 +758,37 @@ func (g *gen) opHandOverFresh() bool {
 	return true
 }
 
+// opUnfrozenDrain: a fungible holder is frozen and unfrozen again (its entry now carries the flag bytes `0000`, not an
+// empty field), then spends its WHOLE balance — through the multi transfer, which saves fungible entries with the NFT
+// helper, or through the plain transfer; the in-shard receiver, which got a copy of those flag bytes, drains as well.
+// An emptied entry must be gone, whatever its flag bytes look like.
+func (g *gen) opUnfrozenDrain() bool {
+	x, ok := g.pickHeld(isFung)
+	if !ok {
+		return false
+	}
+	g.do(g.sys(oracle.FnFreeze, x.a, x.h.tok))
+	g.do(g.sys(oracle.FnUnFreeze, x.a, x.h.tok))
+	b := g.otherThan(x.a, nil)
+	if g.r.Intn(2) == 0 {
+		if c := g.otherThan(x.a, g.sameShard(x.a)); c != nil {
+			b = c
+		}
+	}
+	full := g.holdingOf(x.a, x.h.tok, 0).Bytes()
+	if g.r.Intn(3) > 0 {
+		g.do(g.user(oracle.FnMultiTransfer, x.a, x.a, bigGas, b, be(1), x.h.tok, []byte{}, full))
+	} else {
+		g.do(g.user(oracle.FnTransfer, x.a, b, bigGas, x.h.tok, full))
+	}
+	g.drain()
+	if rest := g.holdingOf(b, x.h.tok, 0); rest.Sign() > 0 && g.r.Intn(2) == 0 {
+		g.do(g.user(oracle.FnMultiTransfer, b, b, bigGas, x.a, be(1), x.h.tok, []byte{}, rest.Bytes()))
+		g.drain()
+	}
+	return true
+}
+
 // opPayableMatrix: a destination the payability oracle refuses, then PLAIN transfers to it (argument count exactly at the
 // minimum, direct / asynchronous call, ordinary caller) with and without the return-after-error flag, for the three transfer
 // functions, fungible and NFT items, same shard and (delivered at once) cross shard: none may be credited.
